@@ -1,2 +1,3 @@
 -- Root of the `KdVerif` library: every property module (which pull in models, generated tables and proofs).
 import KdVerif.Props.C01
+import KdVerif.Props.C15
